@@ -384,6 +384,8 @@ def cut_loop(text, toks, L, fname, spec, uid):
         o.append(end)
         o.append('if (%s) { %s }' % (cond, ' '.join(back)))
     else:
+        if spec.get('head'):
+            o.append(spec['head'])          # ghost text evaluated at the loop head BEFORE the condition (conditions with side effects)
         o.append('if (%s) {' % cond)
         o.append(begin)
         o.append(body)
